@@ -475,9 +475,12 @@ def handleSubscribe (g : Gw) (dup : Bool) (qos tit : UInt8) (mid tid : UInt16) (
   if qos > 2 then g.snSend (.suback 0 0 mid Gen.RC_NOT_SUPPORTED)
   else if tit = Gen.TIT_STRING then
     if !hasWildcard name then
-      match g.newTopicId with
-      | (some id, g') => (g'.storeRegistered id name).forwardSubscribe dup qos mid name id
-      | (none, g') => g'.snSend (.suback 0 0 mid Gen.RC_INVALID_TOPIC_ID)
+      match g.findRegisteredId name with
+      | some id => g.forwardSubscribe dup qos mid name id
+      | none =>
+        match g.newTopicId with
+        | (some id, g') => (g'.storeRegistered id name).forwardSubscribe dup qos mid name id
+        | (none, g') => g'.snSend (.suback 0 0 mid Gen.RC_INVALID_TOPIC_ID)
     else g.forwardSubscribe dup qos mid name 0
   else if tit = Gen.TIT_PREDEFINED then
     match g.predefName tid with
